@@ -239,7 +239,9 @@ func (b *Billet) traverse(curr Node, path, from []byte, process func(pathToNode 
 		}
 		return b.traverse(r, path, from, process, ignoreStorageErr, backwards)
 	}
-	if len(from) == 0 {
+	if _, isLeaf := curr.(*LeafNode); len(from) == 0 || (backwards && isLeaf) {
+		// A leaf reached with non-empty `from` has a key that is a proper prefix of
+		// the start key, i.e. is less than it and belongs to the backwards range.
 		bytes := bytes.Clone(curr.Bytes())
 		if process(fromNibbles(path), curr, bytes) {
 			return curr, errStop
@@ -300,7 +302,9 @@ func (b *Billet) traverse(curr Node, path, from []byte, process func(pathToNode 
 				n.Children[i] = r
 			}
 			// Process the last child after the rest of the children to match lexicographic keys comparison order,
-			// since the last child doesn't add suffix to the key.
+			// since the last child doesn't add suffix to the key. Its key is a prefix of the start key (if any),
+			// so it's always in range.
+			from = []byte{}
 			r, err := b.traverse(n.Children[lastChild], path, from, process, ignoreStorageErr, backwards)
 			if err != nil {
 				if !errors.Is(err, errStop) {
@@ -316,7 +320,7 @@ func (b *Billet) traverse(curr Node, path, from []byte, process func(pathToNode 
 	case *ExtensionNode:
 		if len(from) != 0 && bytes.HasPrefix(from, n.key) {
 			from = from[len(n.key):]
-		} else if len(from) == 0 || bytes.Compare(n.key, from) > 0 {
+		} else if len(from) == 0 || (bytes.Compare(n.key, from) > 0) != backwards {
 			from = []byte{}
 		} else {
 			return b.tryCollapseExtension(n), nil
